@@ -205,12 +205,15 @@ PROPS["C06"] = dict(
     level_text="Deductive proof (Verus) on the real body of TimeLimiter::call, RELATIVE TO ASSUMED TIMED CONTRACTS OF TOKIO'S TIMER: the duration handed to the timer is get_timeout evaluated on this request (fixed: the configured "
                "duration; per-request: what the function returns for this request), before the future is built and with no await before the timer is created; in cancel mode exactly one inner call with the unchanged request, "
                "the result is the inner outcome (Ok / Inner(e)) when it arrives in time and otherwise the Timeout error with the inner future dropped; the cancel_running_future flag selects between the two modes.",
-    level_note="ALL timing is tokio's: timeout(d,f) returns the inner result as soon as it is available within d, or Elapsed at exactly d, dropping f (assumed). The non-cancelling mode (tokio::spawn + oneshot + select!) is "
-               "outside the dialect: replaced by an opaque effect (R15), nothing is claimed for executions through it.",
+    level_note="ALL timing is tokio's: timeout(d,f) polls f before it looks at the deadline, returns the inner result as soon as it is available within d, or Elapsed at exactly d, dropping f (assumed). The non-cancelling mode "
+               "is inside the dialect (R17): tokio::spawn(async move { B }) runs B in line (the detached task runs to completion, so exactly one inner call completes and nothing drops it), tokio::select! is a choice between 'the task's "
+               "result has arrived on the oneshot channel' and 'a timer of exactly this request's timeout has fired'; the result is the inner outcome if it arrives, else Timeout after that timer. The ORDER in which one poll examines a "
+               "ready result and an expired timer is a syntactic side condition checked on the source on every run (every select! with a timer arm is `biased;` with the timer arm last): without it a call that finished before its "
+               "deadline can be reported as timed out when the future is polled late — the genuine defect repaired by d0d41b1. A possible panic / overflow in the body (e.g. computing a deadline from an unlimited timeout) is a C06 violation (safety_tags).",
     technique="contract-based deductive verification (Verus): effect-trace contract relative to assumed timer contracts",
     design_ref="§6 C06",
-    assumptions=["tokio::time::timeout contract (all real-time content of the property)", "straight-line code takes no virtual time"],
-    trusted=COMMON_TRUST, excluded=["non-cancelling mode: the inner call keeps running in the background (R15 opaque block)", "timer accuracy"],
+    assumptions=["tokio::time::timeout / sleep / select! / spawn / oneshot contracts (all real-time content of the property)", "straight-line code takes no virtual time", "a spawned task runs to completion"],
+    trusted=COMMON_TRUST, excluded=["timer accuracy", "fairness of the executor (when the limiter future is polled at all)"],
 )
 
 PROPS["C18"] = dict(
